@@ -202,3 +202,60 @@ func writesLike(in ssa.Instruction, pred func(ssa.Instruction) bool, depth int) 
 	})
 	return found
 }
+
+// siteLike: the instruction satisfies pred, or is a static call (not go) of a function that did not exist at the
+// pinned commit (a helper extracted since) whose body — through further new helpers — contains an instruction
+// that does. Rules that look for "the site where X happens in f" use it so that X moved into a new helper is
+// found at the helper's call; siteIn gives the function and instruction where X really is.
+func siteLike(in ssa.Instruction, pred func(ssa.Instruction) bool) bool {
+	return siteLikeD(in, pred, 3)
+}
+
+func siteLikeD(in ssa.Instruction, pred func(ssa.Instruction) bool, depth int) bool {
+	if pred(in) {
+		return true
+	}
+	if depth <= 0 {
+		return false
+	}
+	ci, ok := in.(ssa.CallInstruction)
+	if !ok {
+		return false
+	}
+	if _, isGo := in.(*ssa.Go); isGo {
+		return false
+	}
+	g := ci.Common().StaticCallee()
+	if g == nil || g.Blocks == nil || g.Pkg == nil || !strings.HasPrefix(g.Pkg.Pkg.Path()+"/", Mod) || isPinnedFn(fnKey(g)) {
+		return false
+	}
+	found := false
+	allInstrs(g, func(x ssa.Instruction) {
+		if !found && siteLikeD(x, pred, depth-1) {
+			found = true
+		}
+	})
+	return found
+}
+
+// siteIn: where pred really holds below a siteLike instruction: the innermost (function, instruction) pairs.
+func siteIn(in ssa.Instruction, pred func(ssa.Instruction) bool) []ssa.Instruction {
+	if pred(in) {
+		return []ssa.Instruction{in}
+	}
+	ci, ok := in.(ssa.CallInstruction)
+	if !ok {
+		return nil
+	}
+	g := ci.Common().StaticCallee()
+	if g == nil || g.Blocks == nil || isPinnedFn(fnKey(g)) {
+		return nil
+	}
+	var out []ssa.Instruction
+	allInstrs(g, func(x ssa.Instruction) {
+		if siteLikeD(x, pred, 2) {
+			out = append(out, siteIn(x, pred)...)
+		}
+	})
+	return out
+}
